@@ -173,8 +173,7 @@ def redecode(ctx, rule='A5x'):
                  for m in nxt)
         detail = f'L{a.lineno}: {short(a.ast)} then {short(nxt[0].ast) if nxt else "?"}'
         guards.check_guarded(ctx, rule, fn, adds,
-                             lambda atom, truth: truth is True and isinstance(atom, ast.Compare) and
-                             norm(atom) == 'i_comb is None', set(), 'exclusion-only-without-comb-index',
+                             guards.none_fact('i_comb', True), set(), 'exclusion-only-without-comb-index',
                              'a vector is put on the exclusion list only when no combination index is known '
                              '(fast encoder); with the complete encoder an infeasible scenario is an error')
         key_ok = 'tuple(sel_choice_opt_idx)' in norm(a.ast)
